@@ -1,6 +1,6 @@
 (* Props/Properties_C03.v -- C03: property values stay attached to their entities through every renumbering. *)
 From Coq Require Import ZArith List Arith.
-From OVM Require Import Base.ListX Kernel.State Kernel.Ops Kernel.SwapEffects Kernel.SwapInvol Kernel.Sizes Kernel.PropLaws Kernel.Construct.
+From OVM Require Import Base.ListX Kernel.State Kernel.Ops Kernel.SwapEffects Kernel.SwapInvol Kernel.Sizes Kernel.PropLaws Kernel.Construct Kernel.DeleteEffects Kernel.DeferredDelete.
 Import ListNotations.
 
 (* exactly one element per entity slot: every deletion-flag array and every property array (all seven kinds) of EVERY
@@ -60,6 +60,43 @@ Proof.
   repeat split; tauto.
 Qed.
 Print Assumptions C03_swaps_move_values_with_definitions_and_flags.
+
+(* deletion, immediate modes: every delete_*_core applies exactly "optional swap-with-last (fast mode), then delete-element at the
+   victim slot" to the deletion-flag array AND to every property array of the deleted kind (for edges/faces also to the two
+   half-entity slots), and touches no flag and no property of any other kind.  Together with the slot laws above: each surviving
+   entity keeps its values, on the correct side. *)
+Theorem C03_immediate_deletion_moves_flags_and_values_together : forall h0 s, deferred s = false ->
+  (let h := victim (nc s) h0 s in let s_ := if fast s then swap_cell_indices h0 h s else s in let s' := delete_cell_core h0 s in
+     cdel s' = remove_nth h (cdel s_) /\ pc s' = map (pdelete h) (pc s_) /\
+     vdel s' = vdel s_ /\ edel s' = edel s_ /\ fdel s' = fdel s_ /\
+     pv s' = pv s_ /\ pe s' = pe s_ /\ phe s' = phe s_ /\ pf s' = pf s_ /\ phf s' = phf s_ /\ pm s' = pm s_) /\
+  (let h := victim (nf s) h0 s in let s_ := if fast s then swap_face_indices h0 h s else s in let s' := delete_face_core h0 s in
+     fdel s' = remove_nth h (fdel s_) /\ pf s' = map (pdelete h) (pf s_) /\
+     phf s' = map (pdelete (2 * h)) (map (pdelete (2 * h + 1)) (phf s_)) /\
+     vdel s' = vdel s_ /\ edel s' = edel s_ /\ cdel s' = cdel s_ /\
+     pv s' = pv s_ /\ pe s' = pe s_ /\ phe s' = phe s_ /\ pc s' = pc s_ /\ pm s' = pm s_) /\
+  (let h := victim (ne s) h0 s in let s_ := if fast s then swap_edge_indices h0 h s else s in let s' := delete_edge_core h0 s in
+     edel s' = remove_nth h (edel s_) /\ pe s' = map (pdelete h) (pe s_) /\
+     phe s' = map (pdelete (2 * h)) (map (pdelete (2 * h + 1)) (phe s_)) /\
+     vdel s' = vdel s_ /\ fdel s' = fdel s_ /\ cdel s' = cdel s_ /\
+     pv s' = pv s_ /\ pf s' = pf s_ /\ phf s' = phf s_ /\ pc s' = pc s_ /\ pm s' = pm s_) /\
+  (let h := victim (nv s) h0 s in let s_ := if fast s then swap_vertex_indices h0 h s else s in let s' := delete_vertex_core h0 s in
+     vdel s' = remove_nth h (vdel s_) /\ pv s' = map (pdelete h) (pv s_) /\
+     edel s' = edel s_ /\ fdel s' = fdel s_ /\ cdel s' = cdel s_ /\
+     pe s' = pe s_ /\ phe s' = phe s_ /\ pf s' = pf s_ /\ phf s' = phf s_ /\ pc s' = pc s_ /\ pm s' = pm s_).
+Proof.
+  intros h0 s D.
+  exact (conj (delete_cell_core_props h0 s D) (conj (delete_face_core_props h0 s D) (conj (delete_edge_core_props h0 s D) (delete_vertex_core_props h0 s D)))).
+Qed.
+Print Assumptions C03_immediate_deletion_moves_flags_and_values_together.
+
+(* deletion, deferred mode: no property value moves at all (dstep: definitions and every property array are equal) *)
+Theorem C03_deferred_deletion_touches_no_property : forall s v, deferred s = true -> forall k, props k (delete_vertex v s) = props k s.
+Proof.
+  intros s v D. pose proof (delete_vertex_deferred v s D) as H. cbv zeta in H.
+  destruct H as (_&_&_&_&_&_&_&_&_&_&_&_&_&P). exact P.
+Qed.
+Print Assumptions C03_deferred_deletion_touches_no_property.
 
 (* growth: an accepted addition gives every property of the grown kind(s) one (two) new default element(s) and touches no other value *)
 Theorem C03_growth_appends_default_elements : forall s a b hes hfs,
